@@ -9,7 +9,7 @@ import sys
 VERIF = os.path.dirname(os.path.dirname(os.path.abspath(__file__)))
 # seeds whose violation does not show on the committed model / package: the check that owns the manifestation is run as well
 ALT = {"C07-2": ["C06"], "C08-2": ["C06"], "C07-r2-2": ["C06"], "C08-r4-2": ["C16"], "C20-r4-2": ["C05"], "C06-r6-2": ["C16"], "C07-r6-2": ["C16"], "C17-r6-2": ["C16"],
-       "C04-r7-1": ["C16"], "C08-r7-1": ["C16"], "C17-r7-2": ["C16"], "C13-r7-1": ["C06"]}
+       "C04-r7-1": ["C16"], "C08-r7-1": ["C16"], "C17-r7-2": ["C16"], "C13-r7-1": ["C06"], "C03-r7-2": ["C01"]}
 
 
 def rnd(name):
